@@ -188,6 +188,10 @@ func verifyFuncPass(P *Program, DB *ContractDB, fn *ssa.Function, k *FuncContrac
 		}
 		post.lets = map[string]Expr{}
 		post.evalLets(k)
+		// ghost code of the contract: assignments to ghost locations at the exit
+		for _, gs := range k.GhostSets {
+			post.applyGhostSet(gs, ex.st)
+		}
 		for _, en := range k.Ensures {
 			if !en.appliesTo(prop) {
 				continue
@@ -274,6 +278,11 @@ func (vc *VC) computeFrame(env *cenv, k *FuncContract) {
 	vc.frameAllowed = map[string][]string{}
 	for _, m := range k.Modifies {
 		for _, l := range pre.locsOf(m) {
+			vc.frameAllowed[l.Var] = append(vc.frameAllowed[l.Var], l.Ref)
+		}
+	}
+	for _, gs := range k.GhostSets {
+		for _, l := range pre.locsOf(gs.Loc) {
 			vc.frameAllowed[l.Var] = append(vc.frameAllowed[l.Var], l.Ref)
 		}
 	}
